@@ -1,188 +1,32 @@
 """C19 — peak clustering, summing, merging and splitting conserve hits, area and time.
 
-Units (each: real strax function vs extracted Gallina model on the same inputs, plus the property
-predicate = spec side of the theorem evaluated on the implementation's output):
-  symmetric_moving_average
+One module per unit (harness/props/c19_<unit>.py); each runs the real strax function and the extracted
+Gallina model on the same inputs and evaluates the property predicate (the spec side of the theorem,
+written independently in Python) on the implementation's output.
 """
-import itertools
-from fractions import Fraction
-
-import numpy as np
-import strax
-from strax.processing import peak_splitting as ps
-
-from harness import lib
+from harness.props import c19_fp, c19_sma
 
 MODEL_PROPS = ["C19"]
 LEVEL = "proof"
 
-COQ_IMPORTS = "From SV Require Import Model.PeakHelpers."
-
-
-def zl(xs):
-    return "[" + "; ".join("(%d)" % int(x) for x in xs) + "]"
-
-
-def f32_quot(num, den):
-    """float32 store of one correctly rounded float64 division of two exactly representable ints."""
-    return np.float32(np.float64(num) / np.float64(den))
-
-
-class Unit:
-    """Bookkeeping shared by the units: disagreement -> predicate -> violation."""
-
-    def __init__(self, ctx, name):
-        self.ctx, self.name = ctx, name
-        self.bad = 0
-        self.nontriv = set()
-        self.dist = {}
-        self.n = 0
-
-    def tally(self, key):
-        self.dist[key] = self.dist.get(key, 0) + 1
-
-    def report(self, inp, impl_s, model_s, reason):
-        """Model/implementation disagreement or predicate failure on `inp`."""
-        self.bad += 1
-        if reason:
-            self.ctx.violation(self.name, "%s (impl %s, model %s)" % (reason, impl_s, model_s),
-                               {"input": inp, "impl": impl_s, "model": model_s})
-        else:
-            self.ctx.violation(self.name, "model/implementation disagree (impl %s, model %s) but the property "
-                               "predicate holds on this input" % (impl_s, model_s),
-                               {"input": "corr:C19/%s" % self.name, "case": inp, "impl": impl_s, "model": model_s},
-                               no_failing_input=True)
-
-    def done(self):
-        self.ctx.count(self.name, self.n, len(self.nontriv), self.dist)
-
-
-def crosscheck(ctx, unit, eqs, imports=COQ_IMPORTS):
-    n, fails = lib.coq_crosscheck("C19", imports, eqs)
-    ctx.coverage.setdefault("kernel_crosscheck", {})[unit] = {"equations": n, "failed_files": len(fails)}
-    if fails:
-        ctx.violation(unit, "extracted model and Coq vm_compute disagree: " + fails[0][-400:],
-                      {"input": "corr:C19/%s/extraction-crosscheck" % unit, "log": fails[0]},
-                      no_failing_input=True)
-
-
-# ------------------------------------------------------------------------------------------------
-# symmetric_moving_average
-# ------------------------------------------------------------------------------------------------
-
-def sma_spec(a, w):
-    """Defining formula: exact windowed mean (Fraction) around every sample."""
-    n = len(a)
-    out = []
-    for i in range(n):
-        lo, hi = max(0, i - w), min(n, i + w + 1)
-        out.append((sum(a[lo:hi]), hi - lo))
-    return out
-
-
-def sma_impl(a, w, dtype):
-    return ps.symmetric_moving_average(np.array(a, dtype=dtype), w)
-
-
-def sma_floats(pairs, dtype):
-    if dtype == np.float32:
-        return [float(f32_quot(s, c)) for s, c in pairs]
-    return [float(np.float64(s) / np.float64(c)) for s, c in pairs]
-
-
-def sma_predicate(a, w, dtype, out):
-    """None if the implementation's output is the (correctly rounded) windowed mean."""
-    exp = sma_floats(sma_spec(a, w), dtype)
-    got = [float(x) for x in out]
-    if len(got) != len(exp):
-        return "output length %d for %d samples" % (len(got), len(a))
-    for i, (g, e) in enumerate(zip(got, exp)):
-        if g != e:
-            return "out[%d] = %r but the mean over the window around sample %d is %r" % (i, g, i, e)
-    return None
-
-
-SMA_WITNESS = {"a": [1, 1], "w": 3, "dtype": "float32"}
-
-
-def unit_sma(ctx):
-    u = Unit(ctx, "symmetric_moving_average")
-    nmax = 8 if (ctx.thorough or bool(ctx.drift)) else 6
-    cases = []
-    for n in range(1, nmax + 1):
-        for a in itertools.product(range(4), repeat=n):
-            for w in range(0, n + 3):
-                cases.append((list(a), w))
-    for _ in range(20000 if ctx.thorough else 3000):
-        n = ctx.rng.randint(1, 40)
-        a = [ctx.rng.choice([0, 0, 1, 2, 3, 7, 100, 1000]) for _ in range(n)]
-        cases.append((a, ctx.rng.randint(0, n + 2)))
-    lines = ["sma %d %d %s" % (w, len(a), " ".join(map(str, a))) for a, w in cases]
-    mout = lib.run_model_parallel("C19", lines)
-    for idx, ((a, w), mo) in enumerate(zip(cases, mout)):
-        dtype = np.float32 if idx % 2 == 0 else np.float64
-        dn = "float32" if dtype == np.float32 else "float64"
-        out = sma_impl(a, w, dtype)
-        mints = list(map(int, mo.split()))
-        mpairs = list(zip(mints[0::2], mints[1::2]))
-        mexp = sma_floats(mpairs, dtype)
-        got = [float(x) for x in out]
-        u.n += 1
-        u.tally("wing>n" if w > len(a) else ("wing=0" if w == 0 else "0<wing<=n"))
-        if w >= 1 and len(a) >= w + 2 and len(set(a)) > 1:
-            u.nontriv.add((tuple(a), w))
-        inp = {"a": a, "w": w, "dtype": dn}
-        in_domain = w <= len(a)
-        if got != mexp:
-            u.report(inp, str(got), str(mexp), sma_predicate(a, w, dtype, out))
-            if u.bad > 5:
-                break
-        elif in_domain:
-            reason = sma_predicate(a, w, dtype, out)
-            if reason:
-                u.report(inp, str(got), str(mexp), "implementation AND model violate the defining formula: " + reason)
-    # the known wide-wing witness (theorem C19_moving_average_is_definition_refuted), evaluated every run
-    wa, ww = SMA_WITNESS["a"], SMA_WITNESS["w"]
-    reason = sma_predicate(wa, ww, np.float32, sma_impl(wa, ww, np.float32))
-    if reason:
-        ctx.violation(u.name, "wing_width > len(a): " + reason, {"input": SMA_WITNESS})
-    u.done()
-    k = len(cases) // 3
-    ctx.sample({"unit": u.name, "a": cases[k][0], "w": cases[k][1], "model_sum_count_pairs": mout[k]})
-    idxs = sorted(ctx.rng.sample(range(len(cases)), 120))
-    eqs = []
-    for i in idxs:
-        a, w = cases[i]
-        mints = list(map(int, mout[i].split()))
-        eqs.append("sma %s (%d) = [%s]" % (zl(a), w, "; ".join("((%d), (%d))" % p for p in zip(mints[0::2], mints[1::2]))))
-    crosscheck(ctx, u.name, eqs)
-
-
-UNITS = [unit_sma]
+UNITS = [c19_sma, c19_fp]
 
 
 def run(ctx):
-    ctx.coverage["rule"] = (
-        "symmetric_moving_average: all waveforms of 1..6 (thorough 8) samples over {0..3} with every wing width "
-        "0..n+2, float32 and float64 alternating, plus seeded random waveforms (<=40 samples, values up to 1000); "
-        "non-trivial = wing >= 1, at least wing+2 samples (a sample leaves the window) and a non-constant waveform; "
-        "distinct by (waveform, wing).")
-    ctx.assumptions.append("float results are compared on the exactly representable domain only: the model returns "
-                           "exact (sum, count) pairs and the implementation must return the float32 store of the one "
-                           "correctly rounded float64 quotient (bit-exact comparison, no tolerance)")
-    for f in UNITS:
-        f(ctx)
+    ctx.coverage["rule"] = " | ".join(m.RULE for m in UNITS)
+    ctx.assumptions.append("float results are compared on the exactly representable domain only (small integer "
+                           "samples and areas, integer gains): sums must be bit-exact; where a helper divides the "
+                           "model returns the exact fraction and the implementation must return the correctly "
+                           "rounded value of that fraction (stated per unit)")
+    for m in UNITS:
+        m.unit(ctx)
 
 
 def replay(ctx, obj):
     r = obj["replay"]
     inp = r.get("case") or r.get("input")
-    unit = obj["unit"]
-    if unit == "symmetric_moving_average":
-        dtype = np.float32 if inp.get("dtype", "float32") == "float32" else np.float64
-        out = sma_impl(inp["a"], inp["w"], dtype)
-        reason = sma_predicate(inp["a"], inp["w"], dtype, out)
-        print("impl:", [float(x) for x in out], "spec:", reason or "holds")
-        return 1 if reason else 0
-    print("unknown unit", unit)
+    for m in UNITS:
+        if m.NAME == obj["unit"]:
+            return m.replay(inp)
+    print("unknown unit", obj["unit"])
     return 0
